@@ -66,8 +66,8 @@ func keyshareResponseGuards(P *Program, R *Report) {
 			return d == "arg#4["+ksElem+".KeyID]" && a.Want == NonNil
 		}}
 	}}}
-	m := fa.inFn(fn, acc)
-	R.decide(rule, kKSResponse+":known-keys", "response => every challenge-input element with a KeyID refers to a key the server knows", m.holds, m.detail, P.Pos(fn.Pos()))
+	m := fa.OnAccept(fn, acc)
+	R.decide(rule, kKSResponse+":known-keys", "response => every challenge-input element with a KeyID refers to a key the server knows", m.Holds, m.Path, P.Pos(fn.Pos()))
 	var cmp *ssa.Call
 	mp(P, R, rule, kKSResponse+":hash-compared", "response => ConstantTimeCompare(hash(second-message input), commRequest.HashedUserCommitments) == 1", fn, acc, &MustPass{Match: func(a Atom) bool {
 		x, y, ok := parseEq(a)
@@ -419,7 +419,7 @@ func keyshareHashRule(P *Program, R *Report) {
 			seq, sok := seqOf(callArgs(hc)[0])
 			ok = sok && len(seq) == 1 && seq[0].Kind == "star" && len(seq[0].Sub) == 1
 			for _, r := range returnsOf(fn) {
-				if len(r.Results) == 3 && !isNilConst(r.Results[1]) && r.Results[1] != callArgs(hc)[0] {
+				if retCount(r) == 3 && !isNilConst(retValue(r, 1)) && retValue(r, 1) != callArgs(hc)[0] {
 					ok = false
 				}
 			}
@@ -652,7 +652,7 @@ func keyshareCommitmentsRule(P *Program, R *Report) {
 	R.decide(rule, kKSCommits+":P", "P = R0^secret mod N of each key", tP.equal(termFn("Exp", tsym(k+".R[0]"), tsym("arg#0"), tsym(k+".N"))), "got "+tP.String(), P.Pos(fn.Pos()))
 	okRet := false
 	for _, ret := range returnsOf(fn) {
-		if desc(ret.Results[0]) == desc(gen)+"#0" {
+		if desc(retValue(ret, 0)) == desc(gen)+"#0" {
 			okRet = true
 		}
 	}
